@@ -291,7 +291,11 @@ theorem claimed_only_if_claimed {cfg : Cfg} {k : Kind} {s s' : State} {L : Layou
 
 /-! ## Unproved part -/
 
-/-- NOT PROVED: `grow` / `shrink` with a refusing base allocator return an error VALUE (no fault).
+/-- RESOLVED — FALSE AS STATED: `C07.grow_refused_target_fails` (Props/Targets.lean; witness: a state with two
+    OVERLAPPING chunks, downwards) and the corrected statement `C07.grow_refused_corrected` (the same for states
+    satisfying `GeomInv` and `ChunksDisjoint`, which every reachable state does); history level:
+    `C07.no_panic_on_failure`, `C07.failed_step_keeps_everything` (Props/Hist2.lean).  Original comment:
+    NOT PROVED: `grow` / `shrink` with a refusing base allocator return an error VALUE (no fault).
     Proved instead: `grow_error_intact` / `shrink_error_intact` (if they return an error the state is
     intact), and the no-fault statement for the allocation they delegate to (`alloc_refused`,
     `inAnotherChunk_refused`).  Missing: no-fault of the in-place arithmetic before the allocation
